@@ -64,104 +64,118 @@ theorem src_update (h : TagAttrDict_update_available = true) (h1 : normalize_att
   | exact absurd h4 (by decide)
   | exact absurd h5 (by decide)
   | skip
-  -- everything after `args` is fixed, for any list of dicts and whatever the loop body is
-  have rest : ∀ (ds : List (List (Str × AttrArg)))
-      (ob : PVal → PVal × PVal × PVal × PVal × PVal × PVal × PVal → PyM (ForInStep (PVal × PVal × PVal × PVal × PVal × PVal × PVal)))
-      (init : PVal × PVal × PVal × PVal × PVal × PVal × PVal), init.1 = embAttrs [] →
-      (∀ (d : List (Str × AttrArg)) (acc : Attrs) s, s.1 = embAttrs acc →
-        Sim (fun (r : ForInStep _) (b' : Attrs) => ∃ s', r = .yield s' ∧ s'.1 = embAttrs b') embErr
-          (ob (embArgDict d) s) (d.foldlM (fun acc kv => pairStep cfg kv acc) acc)) →
-      (do
-        let l ← pyIter (PVal.tuple (ds.map embArgDict))
-        let s ← forIn l init ob
-        let self ← pyDictUpdate (embAttrs cur) s.1
-        Except.ok self : PyM PVal) = embRes embAttrs (attrsUpdate cfg cur ds) := by
-    intro ds ob init h0 hob
-    have hl := forIn_sim (fun (s : PVal × PVal × PVal × PVal × PVal × PVal × PVal) (b : Attrs) => s.1 = embAttrs b)
-      embErr embArgDict ds ob (fun d acc => d.foldlM (fun acc kv => pairStep cfg kv acc) acc) init [] h0
-      (fun d _ s b hR => hob d b s hR)
-    have hb := Sim.bind (R' := fun (t : PVal) (b : Attrs) => t = embAttrs (dictUpdate cur b)) hl
-      (k := fun s => do
-        let self ← pyDictUpdate (embAttrs cur) s.1
-        Except.ok self)
-      (by
-        intro s b hR
-        refine ⟨embAttrs (dictUpdate cur b), ?_, rfl⟩
-        simp only [hR, embAttrs, pyDictUpdate, pure_eq_ok, ok_bind, dictUpdate_emb])
-    simp only [pyIter_tuple, ok_bind]
-    rw [attrsUpdate_fold]
-    generalize List.foldlM (m := Except Err) (fun (acc : Attrs) (d : List (Str × AttrArg)) =>
-      List.foldlM (fun acc kv => pairStep cfg kv acc) acc d) [] ds = y at hb ⊢
-    cases y with
-    | error e => exact hb
-    | ok b => obtain ⟨t, ht, rfl⟩ := hb; exact ht
-  -- one pass of the inner loop does what `pairStep` does
-  have hv := fun v => src_normalize_attr_value h1 (globalsOf cfg) v
-  have hn := fun k => src_normalize_attr_name h2 (globalsOf cfg) k
-  have he := fun x => src_html_escape h3 cfg ht ha x true
-  have he0 := fun x => src_html_escape h3 cfg ht ha x false
-  have hsp' : htmlEscapeT cfg.textTbl [' '] = [' '] := hsp
-  simp only [if_true, Bool.false_eq_true, if_false] at he he0
-  have outer : ∀ (d : List (Str × AttrArg)) (acc : Attrs) (s : PVal × PVal × PVal × PVal × PVal × PVal × PVal),
-      s.1 = embAttrs acc → True := fun _ _ _ _ => trivial
-  unfold TagAttrDict_update
-  simp only [ok_bind, pure_eq_ok, truthy_bool]
-  have hkw : truthy (embArgDict kw) = !kw.isEmpty := by cases kw <;> rfl
-  have hadd : pyAdd (globalsOf cfg) (PVal.tuple (args.map embArgDict)) (PVal.tuple [embArgDict kw])
-      = .ok (PVal.tuple ((args ++ [kw]).map embArgDict)) := by simp [pyAdd, pyAddBase]
-  -- the body of the outer loop, whatever its text, runs the inner loop over the items of the dict
-  have hob : ∀ ob, (∀ (d : List (Str × AttrArg)) (acc : Attrs) s, s.1 = embAttrs acc →
-        Sim (fun (r : ForInStep _) (b' : Attrs) => ∃ s', r = .yield s' ∧ s'.1 = embAttrs b') embErr
-          (ob (embArgDict d) s) (d.foldlM (fun acc kv => pairStep cfg kv acc) acc)) →
-      (if truthy (embArgDict kw) = true then do
-        let a ← pyAdd (globalsOf cfg) (PVal.tuple (args.map embArgDict)) (PVal.tuple [embArgDict kw])
-        let l ← pyIter a
-        let s ← forIn l (PVal.dict [], PVal.none, PVal.none, PVal.none, PVal.none, PVal.none, PVal.none) ob
-        let self ← pyDictUpdate (embAttrs cur) s.1
-        Except.ok self
-      else do
-        let l ← pyIter (PVal.tuple (args.map embArgDict))
-        let s ← forIn l (PVal.dict [], PVal.none, PVal.none, PVal.none, PVal.none, PVal.none, PVal.none) ob
-        let self ← pyDictUpdate (embAttrs cur) s.1
-        Except.ok self : PyM PVal)
-      = embRes embAttrs (attrsUpdate cfg cur (if kw.isEmpty then args else args ++ [kw])) := by
-    intro ob hOb
+  all_goals (
+    -- everything after `args` is fixed, for any list of dicts, whatever the loop body is and whatever else the loop
+    -- state carries besides `attrz` (its first component)
+    have rest : ∀ (ρ : Type) (ds : List (List (Str × AttrArg)))
+        (ob : PVal → PVal × ρ → PyM (ForInStep (PVal × ρ))) (init : PVal × ρ), init.1 = embAttrs [] →
+        (∀ (d : List (Str × AttrArg)) (acc : Attrs) (s : PVal × ρ), s.1 = embAttrs acc →
+          Sim (fun (r : ForInStep (PVal × ρ)) (b' : Attrs) => ∃ s', r = .yield s' ∧ s'.1 = embAttrs b') embErr
+            (ob (embArgDict d) s) (d.foldlM (fun acc kv => pairStep cfg kv acc) acc)) →
+        (do
+          let l ← pyIter (PVal.tuple (ds.map embArgDict))
+          let s ← forIn l init ob
+          let self ← pyDictUpdate (embAttrs cur) s.1
+          Except.ok self : PyM PVal) = embRes embAttrs (attrsUpdate cfg cur ds) := by
+      intro ρ ds ob init h0 hob
+      have hl := forIn_sim (fun (s : PVal × ρ) (b : Attrs) => s.1 = embAttrs b)
+        embErr embArgDict ds ob (fun d acc => d.foldlM (fun acc kv => pairStep cfg kv acc) acc) init [] h0
+        (fun d _ s b hR => hob d b s hR)
+      have hb := Sim.bind (R' := fun (t : PVal) (b : Attrs) => t = embAttrs (dictUpdate cur b)) hl
+        (k := fun s => do
+          let self ← pyDictUpdate (embAttrs cur) s.1
+          Except.ok self)
+        (by
+          intro s b hR
+          refine ⟨embAttrs (dictUpdate cur b), ?_, rfl⟩
+          simp only [hR, embAttrs, pyDictUpdate, pure_eq_ok, ok_bind, dictUpdate_emb])
+      simp only [pyIter_tuple, ok_bind]
+      rw [attrsUpdate_fold]
+      generalize List.foldlM (m := Except Err) (fun (acc : Attrs) (d : List (Str × AttrArg)) =>
+        List.foldlM (fun acc kv => pairStep cfg kv acc) acc d) [] ds = y at hb ⊢
+      cases y with
+      | error e => exact hb
+      | ok b => obtain ⟨t, ht, rfl⟩ := hb; exact ht
+    have hv := fun v => src_normalize_attr_value h1 (globalsOf cfg) v
+    have hn := fun k => src_normalize_attr_name h2 (globalsOf cfg) k
+    have he := fun x => src_html_escape h3 cfg ht ha x true
+    have he0 := fun x => src_html_escape h3 cfg ht ha x false
+    have hsp' : htmlEscapeT cfg.textTbl [' '] = [' '] := hsp
+    simp only [if_true, Bool.false_eq_true, if_false] at he he0
+    have hkw : truthy (embArgDict kw) = !kw.isEmpty := by cases kw <;> rfl
+    have hadd : pyAdd (globalsOf cfg) (PVal.tuple (args.map embArgDict)) (PVal.tuple [embArgDict kw])
+        = .ok (PVal.tuple ((args ++ [kw]).map embArgDict)) := by simp [pyAdd, pyAddBase]
+    -- one pass of the inner loop does what `pairStep` does, whatever else its state carries
+    have inner : ∀ (ρ : Type) (ib : PVal → PVal × ρ → PyM (ForInStep (PVal × ρ))),
+        (∀ (k : Str) (v : AttrArg) (acc' : Attrs) (rest : ρ),
+          Sim (fun (r : ForInStep (PVal × ρ)) (b' : Attrs) => ∃ s', r = .yield s' ∧ s'.1 = embAttrs b') embErr
+            (ib (PVal.tuple [PVal.str k, embArg v]) (embAttrs acc', rest)) (pairStep cfg (k, v) acc')) →
+        ∀ (d : List (Str × AttrArg)) (acc : Attrs) (r0 : ρ),
+          Sim (fun (s : PVal × ρ) (b : Attrs) => s.1 = embAttrs b) embErr
+            (forIn (d.map ((fun kv : Str × PVal => PVal.tuple [PVal.str kv.1, kv.2]) ∘ fun kv : Str × AttrArg => (kv.1, embArg kv.2)))
+              (embAttrs acc, r0) ib)
+            (d.foldlM (fun acc kv => pairStep cfg kv acc) acc) := by
+      intro ρ ib hib d acc r0
+      refine forIn_sim (fun (s : PVal × ρ) (b : Attrs) => s.1 = embAttrs b) embErr _ d ib
+        (fun kv acc => pairStep cfg kv acc) (embAttrs acc, r0) acc rfl ?_
+      intro kv _ s acc' hs
+      obtain ⟨k, v⟩ := kv
+      obtain ⟨t1, t2⟩ := s
+      simp only at hs; subst hs
+      exact hib k v acc' t2
+    unfold TagAttrDict_update
+    simp only [ok_bind, pure_eq_ok, truthy_bool]
     cases hk : kw.isEmpty
-    · simp only [hkw, hk, Bool.not_false, if_true, hadd, ok_bind, Bool.false_eq_true, if_false]
-      exact rest _ ob _ rfl hOb
-    · simp only [hkw, hk, Bool.not_true, Bool.false_eq_true, if_false, if_true]
-      exact rest _ ob _ rfl hOb
-  refine hob _ ?_
-  intro d acc s hs
-  obtain ⟨s0, s1, s2, s3, s4, s5, s6⟩ := s
-  simp only at hs; subst hs
-  simp only [embArgDict, pyItems_dict, pyIter_list, ok_bind, List.map_map]
-  refine Sim.bind (forIn_sim (fun (s : PVal × PVal × PVal × PVal × PVal × PVal) (b : Attrs) => s.1 = embAttrs b) embErr
-    ((fun kv : Str × PVal => PVal.tuple [PVal.str kv.1, kv.2]) ∘ fun kv : Str × AttrArg => (kv.1, embArg kv.2)) d _
-    (fun kv acc => pairStep cfg kv acc) _ acc rfl ?_) ?_
-  · -- the inner step
-    intro kv _ s acc' hs
-    obtain ⟨k, v⟩ := kv
-    obtain ⟨t1, t2, t3, t4, t5, t6⟩ := s
-    simp only at hs; subst hs
-    simp only [Function.comp, pyUnpack2_tuple, ok_bind, hv, pairStep]
-    cases hnv : normAttrValue v with
-    | error e => simp [embRes, Sim]
-    | ok o =>
-      cases o with
-      | none => simp [embRes, Sim, isNone]
-      | some w =>
-        have hw : isNone (embVal w) = false := by cases w <;> rfl
-        simp only [embRes, ok_bind, hw, Bool.false_eq_true, if_false, hn, pyIn, embAttrs, dictGet_emb, pure_eq_ok,
-          truthy_bool, pyGetItem]
-        cases hl : alookup (normAttrName k) acc' with
-        | none => cases w <;> simp [Sim, pySetItem, dictSet_emb_plain, dictSet_emb_html]
-        | some old =>
-          cases old <;> cases w <;>
-            simp [Sim, pySetItem, dictSet_emb_plain, dictSet_emb_html, isInstance, builtinClasses, pyAnd, he, he0, hsp',
-              pyAdd, HTML_add, HTML_radd, HTML_as_string, pyAddBase, mergeVal, pyStr]
-  · intro s b hR
-    exact ⟨_, rfl, _, rfl, hR⟩
+    ·
+      simp only [hkw, hk, Bool.not_false, Bool.not_true, if_true, hadd, ok_bind, Bool.false_eq_true, if_false]
+      refine rest _ _ _ _ rfl ?_
+      intro d acc s hs
+      obtain ⟨s0, srest⟩ := s
+      simp only at hs; subst hs
+      simp only [embArgDict, pyItems_dict, pyIter_list, ok_bind, List.map_map]
+      refine Sim.bind (inner _ _ ?_ d acc _) (fun s b hR => ⟨_, rfl, _, rfl, hR⟩)
+      intro k v acc' rest'
+      simp only [pyUnpack2_tuple, ok_bind, hv, pairStep]
+      cases hnv : normAttrValue v with
+      | error e => simp [embRes, Sim]
+      | ok o =>
+        cases o with
+        | none => simp [embRes, Sim, isNone]
+        | some w =>
+          have hw : isNone (embVal w) = false := by cases w <;> rfl
+          simp only [embRes, ok_bind, hw, Bool.false_eq_true, if_false, hn, pyIn, embAttrs, dictGet_emb, pure_eq_ok,
+            truthy_bool, pyGetItem]
+          cases hl : alookup (normAttrName k) acc' with
+          | none => cases w <;> simp [Sim, pySetItem, dictSet_emb_plain, dictSet_emb_html]
+          | some old =>
+            cases old <;> cases w <;>
+              simp [Sim, pySetItem, dictSet_emb_plain, dictSet_emb_html, isInstance, builtinClasses, pyAnd, he, he0, hsp',
+                pyAdd, HTML_add, HTML_radd, HTML_as_string, pyAddBase, mergeVal, pyStr]
+    ·
+      simp only [hkw, hk, Bool.not_false, Bool.not_true, if_true, hadd, ok_bind, Bool.false_eq_true, if_false]
+      refine rest _ _ _ _ rfl ?_
+      intro d acc s hs
+      obtain ⟨s0, srest⟩ := s
+      simp only at hs; subst hs
+      simp only [embArgDict, pyItems_dict, pyIter_list, ok_bind, List.map_map]
+      refine Sim.bind (inner _ _ ?_ d acc _) (fun s b hR => ⟨_, rfl, _, rfl, hR⟩)
+      intro k v acc' rest'
+      simp only [pyUnpack2_tuple, ok_bind, hv, pairStep]
+      cases hnv : normAttrValue v with
+      | error e => simp [embRes, Sim]
+      | ok o =>
+        cases o with
+        | none => simp [embRes, Sim, isNone]
+        | some w =>
+          have hw : isNone (embVal w) = false := by cases w <;> rfl
+          simp only [embRes, ok_bind, hw, Bool.false_eq_true, if_false, hn, pyIn, embAttrs, dictGet_emb, pure_eq_ok,
+            truthy_bool, pyGetItem]
+          cases hl : alookup (normAttrName k) acc' with
+          | none => cases w <;> simp [Sim, pySetItem, dictSet_emb_plain, dictSet_emb_html]
+          | some old =>
+            cases old <;> cases w <;>
+              simp [Sim, pySetItem, dictSet_emb_plain, dictSet_emb_html, isInstance, builtinClasses, pyAnd, he, he0, hsp',
+                pyAdd, HTML_add, HTML_radd, HTML_as_string, pyAddBase, mergeVal, pyStr])
 
 /-- `update` for the tables as they are in the source right now -/
 theorem src_update_now (h : TagAttrDict_update_available = true) (h1 : normalize_attr_value_available = true)
